@@ -365,10 +365,19 @@ pub fn c16_pause(cx: &mut Ctx) {
             }
             let session = cx.pool_mode(&c.database, &c.user) == "session";
             let mut holding = false; // does the client hold a server when this step starts?
+            // tags of a batch whose first messages went out without waiting for a reply (the
+            // pooler only buffers them): the step that sends its Sync is the one that starts it
+            let mut buffered_tags: Vec<Tag> = Vec::new();
             for s in &c.steps {
                 if s.op != "send" && s.op != "copyin" {
                     continue;
                 }
+                if s.op == "send" && s.outcome == StepOutcome::Done && !s.tags.is_empty() && !holding {
+                    buffered_tags = s.tags.clone();
+                    cx.probe("c16_batch_begun_without_sync");
+                    continue;
+                }
+                let own_tags: Vec<Tag> = if s.tags.is_empty() { std::mem::take(&mut buffered_tags) } else { buffered_tags.clear(); s.tags.clone() };
                 let starts_txn = !holding;
                 // after this step: in transaction mode the server is kept iff status != I;
                 // in session mode it is kept for good once the first request was served
@@ -380,12 +389,16 @@ pub fn c16_pause(cx: &mut Ctx) {
                 if starts_txn && s.start_seq > *ack && s.start_seq < *resume_sent {
                     // sent after the PAUSE was acknowledged: must not reach a server before RESUME is sent
                     let mut first: Option<u64> = None;
-                    for t in &s.tags {
+                    for t in &own_tags {
                         if let Some(v) = cx.ix.units_by_tag.get(t) {
                             for (ci, ui) in v {
                                 let u = &h.backend_conns[*ci].units[*ui];
                                 if is_pooler_prepare_unit(u) {
                                     continue;
+                                }
+                                // (a unit that began before this step was sent is not of this step)
+                                if u.first_seq < s.start_seq && s.tags.is_empty() {
+                                    first = Some(u.first_seq);
                                 }
                                 if u.first_seq >= s.start_seq && first.map(|f| u.first_seq < f).unwrap_or(true) {
                                     first = Some(u.first_seq);
